@@ -147,8 +147,11 @@ def run_property(prop, tier, replay=None):
                 for s in scheds:
                     f.write(json.dumps(s) + "\n")
             nrand = 0 if replay else fam.get("random_" + tier, 0)
-            trace, rep = C.run_harness(fname, wd, "run", sched_file=sf, random=nrand, seed=seed,
-                                       opts=fam.get("opts"), timeout=1500)
+            if "runner" in fam:
+                trace, rep = fam["runner"](wd, scheds, seed, tier)
+            else:
+                trace, rep = C.run_harness(fname, wd, fam.get("tag", "run"), sched_file=sf, random=nrand, seed=seed,
+                                           opts=fam.get("opts"), timeout=1500)
             runs.append((fam, trace, rep))
     except Exception:
         mc_thread.join()
